@@ -205,7 +205,6 @@ func TestVerifC05Dispatch(t *testing.T) {
 			run.Count("nodes_recycled", 1)
 		}
 		served++
-		done := make(chan c05DispObs, 1)
 		n := node
 		report := func(sig string, extra map[string]any) {
 			m := map[string]any{}
@@ -220,13 +219,22 @@ func TestVerifC05Dispatch(t *testing.T) {
 			}
 			run.Violation(sig, m)
 		}
-		go func() { done <- c05Serve(n, in.Data, report) }()
-		wd := time.NewTimer(50 * time.Second)
+		// the read loop replica runs on its own goroutine; a dispatch that does not return is
+		// classified from goroutine dumps: parked in the same lock wait with an identical stack
+		// in three dumps 100 ms apart (after 1 s) = blocked on a lock nobody will release for it
 		var o c05DispObs
-		select {
-		case o = <-done:
-			wd.Stop()
-		case <-wd.C:
+		cres := gen.CloseAsync(func() { o = c05Serve(n, in.Data, report) }, time.Second, 50*time.Second)
+		if cres.Hung {
+			run.Count("dispatch_hung", 1)
+			report("C05:dispatch|hang|"+cres.State+"|at="+cres.Frames, map[string]any{"goroutine_state": cres.State, "parked_at": cres.Frames,
+				"decided_by": "the connection's read-loop goroutine in the same lock wait with an identical stack in 3 dumps 100 ms apart; the stream is finite and fully delivered"})
+			// the server may be wedged behind that lock: abandon it, continue on a new one
+			node = c05NewNode(t)
+			run.Count("nodes_recycled", 1)
+			run.Eval(1)
+			return run.Counter("dispatch_hung") < 4
+		}
+		if !cres.Returned {
 			run.Count("watchdog", 1)
 			run.Observe("watchdog_case", det)
 			stopped = true
